@@ -133,7 +133,7 @@ pub fn check(c: &Case, obs: &mut Obs) -> CheckResult {
     diff_traces(&spec, &a, &b, &data, &c.feed)
 }
 
-fn large_case_strategy() -> impl Strategy<Value = Case> {
+pub fn large_case_strategy() -> impl Strategy<Value = Case> {
     // Long well-formed documents (optionally with one corruption near the end) so that the default
     // and the 4096-byte chunk sizes also realign.
     let cnf = (
